@@ -63,6 +63,7 @@ class LenEval(SE.SymEval):
     def __init__(self):
         super().__init__(None, budget=20000)
         self.track_let_blocks = True
+        self.bind_struct_lets = False       # the destructured vectors keep their (typed) local identity
         self.exits = []
         self.underflows = []
 
@@ -151,7 +152,59 @@ class LenEval(SE.SymEval):
             env2['#' + vk] = None
         return env2
 
+    def _for_loop_effect(self, st, env):
+        """`for x in <pairs of the vertex list> { .. v.push(..) .. }` with a straight-line body: every vector grows by
+        (pushes per iteration) x (number of pairs)"""
+        if not (isinstance(st, dict) and st.get('k') == 'match' and st.get('src', '').startswith('ForLoop')):
+            return None
+        sc = st.get('scrut')
+        if not (isinstance(sc, dict) and sc.get('k') == 'call' and sc['f'].get('name') == 'into_iter' and sc['args']):
+            return None
+        m = self.pairs_len(sc['args'][0], env)
+        if m is None or len(st.get('arms', [])) != 1:
+            return None
+        lp = st['arms'][0]['body']
+        if not (isinstance(lp, dict) and lp.get('k') == 'loop' and lp['body'].get('stmts')):
+            return None
+        inner = lp['body']['stmts'][0]
+        some = [a for a in inner.get('arms', []) if 'Some' in repr(a['pat'])[:300]] if isinstance(inner, dict) else []
+        if not some:
+            return None
+        body = some[0]['body']
+        esc = []
+        H.walk(body, lambda x, anc: esc.append(x) if x.get('k') in ('break', 'continue', 'ret') else None)
+        if esc:
+            return None
+        probe = dict(env)
+        probe['#P'] = Lin(0)
+        probe['#L'] = Lin(0)
+        res = []
+        sub = LenEval()
+        sub.budget = 2000
+        try:
+            t = sub.seq(list(body.get('stmts', [])) if body.get('k') == 'block' else [], body.get('expr') if body.get('k') == 'block' else body,
+                        probe, lambda e2, tl: (res.append(sub.effect(tl, e2) or e2 if isinstance(tl, dict) and tl.get('k') == 'mcall' else e2)
+                                               or ('v', {'k': 'end'})),
+                        kret=lambda vt, e2=None: ('v', {'k': 'ret'}))
+        except SE.Stop:
+            return None
+        if t[0] != 'v' or len(res) != 1:
+            return None         # the body branches: pushes per iteration are not constant
+        e_end = res[0]
+        env2 = dict(env)
+        for vk in ('P', 'L'):
+            d = e_end.get('#' + vk)
+            cur = env.get('#' + vk)
+            if d is None or d.t or cur is None:
+                env2['#' + vk] = None if (d is None or d.t) and (d is None or d.key() != Lin(0).key()) else cur
+                continue
+            env2['#' + vk] = cur.add(Lin(m.c * d.c, {s_: v_ * d.c for s_, v_ in m.t.items()}))
+        return env2
+
     def stmt(self, st, env, knext, kret, as_tail=None):
+        fl = self._for_loop_effect(st, env)
+        if fl is not None:
+            return knext(fl)
         if isinstance(st, dict) and st.get('k') in ('slet', 'call', 'mcall', 'assign'):
             env = self.invalidate(st.get('init', st) if st.get('k') == 'slet' else st, env)
         elif isinstance(st, dict) and st.get('k') == 'if':
